@@ -183,11 +183,15 @@ func cmdRun(args []string) int {
 	timeout := fs.Int("timeout", 10, "per-obligation timeout (s)")
 	verbose := fs.Bool("v", false, "print every obligation")
 	work := fs.String("work", "", "work directory")
+	cacheDir := fs.String("cache", "/verif/.cache", "verdict cache directory (empty: no cache)")
 	fs.Parse(args)
 	e, err := loadEngine(*repo)
 	if err != nil {
 		fmt.Fprintln(os.Stderr, "load:", err)
 		return 2
+	}
+	if *cacheDir != "" && os.Getenv("GOVC_NOCACHE") == "" && !*dump && *work == "" {
+		e.cache = e.openCache(*cacheDir)
 	}
 	re := regexp.MustCompile(*fn)
 	var keys []string
